@@ -257,7 +257,7 @@ func VerifC13Clone() {
 		return
 	}
 	prepare(ind, prep)
-	arg := vnd.Str(vnd.Len(vnd.Param("C13.KArg", 0, 1)))
+	arg := vnd.Str(vnd.Len(vnd.Param("C13.KCloneArg", 0, 0)))
 	for i := 0; i < 2; i++ {
 		op := vnd.Pick(nAliasOps)
 		if vnd.Pick(2) == 0 {
